@@ -437,6 +437,11 @@ async fn recv_task(
     let mut idx = 0u32;
     let outcome;
     let check = |read: u64, data: &[u8], app: &SharedApp| {
+        // consumption log (time-resolved, for the advertised-credit bound)
+        if !data.is_empty() {
+            let t = now_ns();
+            app.lock().unwrap().reads_log.push((t, key, read + data.len() as u64));
+        }
         if let Some(i) = payload_check(data_key, key.conn as u64, key.id, dir, read, data) {
             let mut a = app.lock().unwrap();
             let o = a.recvs.get_mut(&key).unwrap();
@@ -519,8 +524,6 @@ async fn recv_task(
         let o = a.recvs.get_mut(&key).unwrap();
         o.read = read;
         o.reads += 1;
-        let t = now_ns();
-        a.reads_log.push((t, key, read));
     }
     let mut a = app.lock().unwrap();
     let o = a.recvs.get_mut(&key).unwrap();
@@ -963,6 +966,7 @@ fn start_client(
 }
 
 thread_local! {
+    pub static CURRENT_SEED: std::cell::Cell<u64> = const { std::cell::Cell::new(0) };
     static LAST_PANIC: std::cell::RefCell<Option<String>> = const { std::cell::RefCell::new(None) };
 }
 
@@ -970,6 +974,9 @@ pub fn install_panic_hook() {
     std::panic::set_hook(Box::new(|info| {
         let bt = std::backtrace::Backtrace::force_capture();
         let msg = format!("{info}\n{bt}");
+        if std::env::var("VERIF_PANIC_PRINT").is_ok() {
+            eprintln!("PANIC (seed {}): {}", CURRENT_SEED.with(|s| s.get()), msg);
+        }
         LAST_PANIC.with(|p| *p.borrow_mut() = Some(msg));
     }));
 }
@@ -985,6 +992,7 @@ pub fn execute(plan: &Plan, keep_net_bytes: bool) -> RunOutput {
     let end_ns = Arc::new(Mutex::new(0u64));
 
     LAST_PANIC.with(|p| *p.borrow_mut() = None);
+    CURRENT_SEED.with(|s| s.set(plan.seed));
     let result = {
         let (app, obs, tls, net, addrs, end_ns) =
             (app.clone(), obs.clone(), tls.clone(), net.clone(), addrs.clone(), end_ns.clone());
@@ -1036,7 +1044,9 @@ fn run_inner(
     end_ns: Arc<Mutex<u64>>,
 ) {
     let simnet = SimNet::new(plan, net.clone());
-    let mut executor = Executor::new(simnet, plan.seed);
+    // ManuallyDrop: when the simulation panics, dropping the executor would poll the poisoned
+    // tasks again (panic inside a destructor = abort); it is leaked in that case instead
+    let mut executor = std::mem::ManuallyDrop::new(Executor::new(simnet, plan.seed));
     let handle = executor.handle().clone();
     let cap_ns = plan.time_cap_us * 1000;
 
@@ -1210,4 +1220,5 @@ fn run_inner(
 
     executor.run();
     *end_ns.lock().unwrap() = executor.enter(|| now_ns());
+    unsafe { std::mem::ManuallyDrop::drop(&mut executor) };
 }
